@@ -83,7 +83,13 @@ impl JavaState {
             sample: match rng.below(6) {
                 0 => None,
                 1 => Some(None),
-                _ => Some(Some((0 .. n_sample).map(|_| (rng.text(16, &[]), format!("{:08x}-{:04x}-{:04x}-{:04x}-{:012x}", rng.u32(), rng.u32() & 0xffff, rng.u32() & 0xffff, rng.u32() & 0xffff, rng.next_u64() & 0xffff_ffff_ffff))).collect())),
+                _ => Some(Some((0 .. n_sample).map(|_| (rng.text(16, &[]), match rng.below(8) {
+                    // ids that look special: the nil and the all-ones UUID (servers use them for hover text lines), an empty id
+                    0 => "00000000-0000-0000-0000-000000000000".to_string(),
+                    1 => "ffffffff-ffff-ffff-ffff-ffffffffffff".to_string(),
+                    2 => String::new(),
+                    _ => format!("{:08x}-{:04x}-{:04x}-{:04x}-{:012x}", rng.u32(), rng.u32() & 0xffff, rng.u32() & 0xffff, rng.u32() & 0xffff, rng.next_u64() & 0xffff_ffff_ffff),
+                })).collect())),
             },
             description,
             favicon: rng.bool().then(|| format!("data:image/png;base64,{}", rng.ident(40))),
